@@ -4,6 +4,7 @@
 use crate::error::verif_hooks::LISTING_RANGES;
 use crate::out::{guarded, Out};
 use crate::parser::parse;
+use crate::pipeline::{front, Stage};
 use crate::parser::verif_hooks::CACHE_STATS;
 use crate::prog;
 use crate::rng::Rng;
@@ -269,6 +270,35 @@ pub fn run(out: &mut Out, tier: &str, seed: u64) {
                     _ => w[k] = SOUP[sub.below(SOUP.len())].to_owned(),
                 }
                 check_text(out, &mut names, &w.join(" "), &[], false);
+            }
+        }
+        // C10 at parser level: a separating line break is interchangeable with `;`.  One separator of the plain
+        // rendering (all separators are `;` there) is written as a line break: same outcome as the original; and
+        // doubled in its three mixed spellings `;` + line break, line break + `;`, `;;`: the three must fare alike.
+        // (only where a line break separates at all: the next token must be able to start an expression -- a
+        // leading `-` cannot, `3 \n -8` is one expression -- and the previous one able to end one)
+        let starts = |k: usize| plain[k + 1..].trim_start().chars().next().map_or(false, |c| c.is_alphanumeric() || c == '_' || c == '(');
+        let ends = |k: usize| plain[..k].trim_end().chars().last().map_or(false, |c| c.is_alphanumeric() || c == '_' || c == ')');
+        let seps: Vec<usize> = plain.char_indices().filter(|(k, c)| *c == ';' && starts(*k) && ends(*k)).map(|(k, _)| k).collect();
+        if !seps.is_empty() {
+            let k = seps[sub.below(seps.len())];
+            let spell = |sep: &str| -> String { format!("{}{}{}", &plain[..k], sep, &plain[k + 1..]) };
+            let outcome = |text: &str| -> &'static str {
+                let mut toks = vec![];
+                match front(text, &mut toks) { Stage::Parsed(_) => "accepted", Stage::TokErr(_) => "tokenize-error", Stage::ParseErr(_) => "rejected", Stage::Panic(..) => "panic" }
+            };
+            let base = outcome(&plain);
+            let single = spell("\n");
+            check_text(out, &mut names, &single, &[], false);
+            if outcome(&single) != base {
+                out.hit("C10", "line-break-not-interchangeable-with-semicolon", &single, &format!("with `;`: {base}; with a line break: {}; original: {plain}", outcome(&single)));
+            }
+            let doubles = [spell(";\n"), spell("\n;"), spell("; ;")];
+            let outs: Vec<&str> = doubles.iter().map(|t| outcome(t)).collect();
+            for t in &doubles { check_text(out, &mut names, t, &[], false); }
+            out.stat("c10:separator-spellings");
+            if outs[0] != outs[2] || outs[1] != outs[2] {
+                out.hit("C10", "doubled-separator-spellings-fare-differently", &doubles[0], &format!("`;` + line break: {}, line break + `;`: {}, `;;`: {}", outs[0], outs[1], outs[2]));
             }
         }
     }
